@@ -343,8 +343,94 @@ func usableOtherNodeStalledScenario(kind string, k int, buf uint) func() {
 	}
 }
 
+// usableAbandonedQueuedScenario: node 1's sender is stalled (blocked in a write: its server does not read),
+// the send buffer has room. One goroutine issues two calls one after the other; each is queued behind the
+// stalled sender and abandoned - its context ends - before the sender gets to it. Then the node crashes and
+// listens again, the sender resumes and works through what was queued. Afterwards the node must be usable.
+func usableAbandonedQueuedScenario(kind string, buf uint) func() {
+	return func() {
+		w := world.New(world.Opts{N: 1, Window: 1, SendBuffer: buf})
+		if w.Cfg == nil {
+			return
+		}
+		blockers := map[int]bool{}
+		w.Handle = func(h *world.HCtx) world.Reply {
+			if blockers[h.Tok] {
+				world.Block()
+			}
+			return world.Reply{}
+		}
+		for i := 0; i < 3; i++ { // in the handler, in the window, blocked in the write
+			x := w.NewCall("Unicast")
+			x.Node, x.NoSendWaiting = 1, true
+			x.Ctx = context.Background()
+			blockers[x.Tok] = true
+			w.Start(x)
+			mc.Quiesce()
+		}
+		var calls []*world.Call
+		for i := 0; i < 2; i++ {
+			c := w.NewCall(kind)
+			if kind == "GRPCCall" || kind == "Unicast" {
+				c.Node = 1
+			}
+			c.Verdict = func(inv *world.QFInv) { inv.Level = len(inv.Keys); inv.Quorum = true }
+			calls = append(calls, c)
+		}
+		mc.GoNamed("client", func() {
+			for _, c := range calls {
+				w.Invoke(c)
+			}
+		})
+		for _, c := range calls {
+			mc.Quiesce() // the call is queued behind the stalled sender (or waits at the hand-over)
+			c.Cancel(context.Canceled)
+		}
+		mc.Quiesce()
+		w.FW.Crash(world.Addr(1))
+		mc.Quiesce()
+		w.FW.Restart(world.Addr(1))
+		mc.Quiesce()
+		for i := 0; i < 5 && mc.FireTimers(nil) > 0; i++ {
+			mc.Quiesce()
+		}
+		probe := w.NewCall("GRPCCall")
+		probe.Node = 1
+		w.Start(probe)
+		mc.Quiesce()
+		for i := 0; i < 4 && !probe.Returned; i++ {
+			if mc.FireTimers(nil) == 0 {
+				break
+			}
+			mc.Quiesce()
+		}
+		name := fmt.Sprintf("usable/abandoned-while-queued/%sx2/buf=%d", kind, buf)
+		key := kind + " abandoned-while-queued"
+		for i, c := range calls {
+			if !c.Returned {
+				fail("C08/not-returned", key, "%s: call %d has not returned although its context has ended", name, i+1)
+			}
+		}
+		switch {
+		case !probe.Returned:
+			fail("C09/probe-stuck", key+" lock-waiters="+world.LockWaiters(), "%s: node 1 is reachable again and every back-off timer has fired, but a new RPC to it gets no answer (entered=%d; blocked library threads: %v)", name, w.Entered(1, probe.Tok), world.LibThreads())
+			mc.Outcome("probe-stuck")
+		case probe.Err != nil:
+			fail("C09/probe-failed", key, "%s: a new RPC to node 1 fails: %v", name, probe.Err)
+			mc.Outcome("probe-failed")
+		default:
+			mc.Outcome("probe-ok")
+		}
+	}
+}
+
 func usableInstances(tier string) []Instance {
 	var out []Instance
+	for _, kind := range []string{"Unicast", "Multicast", "GRPCCall", "QuorumCall", "QuorumCallAsync", "CorrectableStream"} {
+		for _, buf := range []uint{0, 2} {
+			out = append(out, Instance{Name: fmt.Sprintf("usable/abandoned-while-queued/%sx2/buf=%d", kind, buf), Bound: 1, Root: usableAbandonedQueuedScenario(kind, buf)})
+		}
+	}
 	for _, kind := range []string{"CorrectableStream", "CorrectableStreamPerNodeArg", "CorrectableStreamCustomReturnType"} {
 		for _, k := range []int{1, 3, 4} {
 			for _, buf := range []uint{0, 1} {
